@@ -160,9 +160,13 @@ class GenObj:
 
 
 # ------------------------------------------------------------------ shapes
+OBJECTS = {}  # id -> object, for every object that appeared as a constant (keeps it alive; default_of(("o", id)))
+
+
 def const_key(v):
     if v is None or isinstance(v, (str, float, bytes)):
         return ("c", type(v).__name__, v)
+    OBJECTS[id(v)] = v
     return ("o", id(v))
 
 
@@ -242,6 +246,8 @@ def default_of(shape):
             return SDict(shape[1], [False] * shape[1], [default_of(shape[2]) for _ in range(shape[1])], shape[2])
         if k == "c":
             return shape[2]
+        if k == "o" and shape[1] in OBJECTS:
+            return OBJECTS[shape[1]]
     raise VMError("no default for shape %r" % (shape,))
 
 
